@@ -11,7 +11,7 @@
 namespace verif {
 const PropertyInfo kInfo = {
     "C01", 8, 8, 40,
-    "tape -> header selects the layer. Layer A (ChunkStore): default_chunk_ttl in {1s,5s,60s,6h}; history over 3 chunk ids of put(id, bytes, ttl in "
+    "tape -> header selects the layer. Layer A (ChunkStore): default_chunk_ttl in {1s,5s,60s,6h}; history over 3 chunk ids of put(id, bytes (1/4 of the overwrites: the bytes already stored), ttl in "
     "{-5,0,1,2,30,3600,86400,10y}), get, get_record, sweep_expired, advance(to the next deadline exactly / -1ns / +1ns / random). Layer B (Node with a "
     "fake peer on a socketpair): min/max/default TTL and cleanup interval from a palette; store_chunk (ttl incl. 0/negative/huge), re-store of the same id, "
     "fetch_chunk, export_chunk_record, a peer REQUEST delivered to the transport handler (the harness decrypts the CHUNK / negative ACK the node sends), "
@@ -103,7 +103,9 @@ void layer_a(Ctx& c) {
             case 0: {
                 long long ttl = kTtlTable[r.a(1) % 8];
                 auto bytes = Prng(r.seed()).bytes(r.a(2) % 65);
-                c.note("|put(c%d,%zuB,ttl=%lld)", k, bytes.size(), ttl);
+                // an overwrite may carry exactly the bytes already stored (a repeated store, a refreshed replica): it still replaces the deadline
+                if ((r.a(3) & 3) == 0 && model.count(k)) { bytes = model[k].bytes; c.label("overwrite_with_identical_bytes"); }
+                c.note("|put(c%d,%zuB%s,ttl=%lld)", k, bytes.size(), ((r.a(3) & 3) == 0 && model.count(k)) ? "=same" : "", ttl);
                 long long eff = ttl > 0 ? ttl : cfg.default_chunk_ttl.count();
                 if (eff < 1) eff = 1;
                 MEntry e;
